@@ -245,6 +245,62 @@ def r09_3(rep: Report) -> None:
         raise AnalysisError('no manifest advertises the patch feature')
 
 
+def r09_4(rep: Report) -> None:
+    """get_segment_index: the search starts with (mod_segment = 1, seg_start_tc = origin_time).
+    Every other place that puts mod_segment back to 1 (the wrap into the next loop of the media)
+    must re-establish that pair after its last change of origin_time, otherwise the first segment
+    of the next loop starts at origin + own duration instead of origin + reference duration and
+    two manifests that reach the same segment through different loops disagree on S@t."""
+    rid = 'R09.4'
+    rel = 'dashlive/mpeg/dash/representation.py'
+    tree = rep.repo.tree(rel)
+    cls = need(find_class(tree, 'Representation'), 'Representation')
+    fn = need(find_func(cls, 'get_segment_index'), 'Representation.get_segment_index')
+    construct = f'{rel}::Representation.get_segment_index'
+
+    def is_assign(st, name, value=None):
+        tgt = val = None
+        if isinstance(st, ast.Assign) and len(st.targets) == 1:
+            tgt, val = st.targets[0], st.value
+        elif isinstance(st, ast.AnnAssign) and st.value is not None:
+            tgt, val = st.target, st.value
+        if tgt is None or norm(tgt) != name:
+            return False
+        return value is None or norm(val) == value
+
+    resets = []
+    for blk_owner in ast.walk(fn):
+        for field in ('body', 'orelse', 'finalbody'):
+            blk = getattr(blk_owner, field, None)
+            if not isinstance(blk, list):
+                continue
+            for i, st in enumerate(blk):
+                if is_assign(st, 'mod_segment', '1'):
+                    resets.append((blk, i, st))
+    if not resets:
+        raise AnalysisError('get_segment_index: no `mod_segment = 1` found')
+    for blk, i, st in resets:
+        # the pair: a later (or earlier, same block) `seg_start_tc = origin_time` with no change of
+        # origin_time after it in this block
+        last_origin = max([j for j, x in enumerate(blk)
+                           if isinstance(x, (ast.Assign, ast.AugAssign, ast.AnnAssign))
+                           and norm(x.targets[0] if isinstance(x, ast.Assign) else x.target) == 'origin_time']
+                          or [-1])
+        pair = [j for j, x in enumerate(blk) if is_assign(x, 'seg_start_tc', 'origin_time')]
+        key = f'mod_segment = 1 @{"init" if blk is fn.body else "wrap"}'
+        if pair and max(pair) > last_origin:
+            rep.ok(rid, construct, key, 'seg_start_tc = origin_time follows the last change of origin_time')
+        elif pair:
+            rep.fail(rid, construct, key,
+                     'seg_start_tc is set from origin_time before origin_time is advanced: the next loop '
+                     'starts at the previous origin', st)
+        else:
+            rep.fail(rid, construct, key,
+                     'mod_segment is put back to 1 without `seg_start_tc = origin_time`: after the wrap '
+                     'the first segment of the next loop starts at origin + own media duration '
+                     'instead of the new origin (drift between audio and the timing reference)', st)
+
+
 def analyse(rep: Report) -> None:
     rep.explanation = (
         'Only the clauses of C09 that are agreements between two pieces of source: template-AST '
@@ -255,7 +311,9 @@ def analyse(rep: Report) -> None:
     rep.rule('R09.1', 'patch template addresses what the manifest template emits', floor=8)
     rep.rule('R09.2', 'patch is rendered under the option vector of the manifest', floor=4)
     rep.rule('R09.3', 'originalPublishTime and patch capability agree between the two endpoints', floor=5)
+    rep.rule('R09.4', 'loop wrap re-establishes (mod_segment = 1, seg_start_tc = origin_time)', floor=2)
     idx = Index(rep.repo)
     r09_1(rep)
     r09_2(rep, idx)
     r09_3(rep)
+    r09_4(rep)
